@@ -113,4 +113,17 @@ META = {
         exhaustive={"quick": True, "thorough": True},
         assumptions=["reference evaluator uses typing introspection only (no normalize_type); stacks are built with adaptix's own location classes (the observation point named by the property)"],
     ),
+    "C11": _m(
+        "pool of 65 mutually confusable facade requests (Literal[0,1] / Literal[False,True] / permutations / >4 members / IntEnum literals, inside Optional, List and "
+        "model fields; List/list/Sequence/Iterable of int and bool; unions in different orders and nestings; equal-shaped models, NewType and Annotated of each; generic "
+        "model with different arguments; recursive and mutually recursive models reached through different outer types; unsupported types that fail; dumpers of the same) "
+        "each with 1-10 valid and invalid probe data. EXHAUSTIVE over ordered pairs 'A then probe B' (default configuration; every 4th pair in 4 configurations), random "
+        "histories of length 2-12 beyond; warmed retort vs. freshly constructed equal retort with normalize_type's LRU cleared; extend()/replace() immutability of the "
+        "original and of loaders obtained earlier; ConversionRetort histories; thorough: >128 hints to force LRU eviction. distinct = (history, probe, configuration); "
+        "non-trivial = non-empty history (shared call-cache hits are counted by the cache monitor)",
+        cases=(50, 1500), budget=(50, 420),
+        minimums={"quick": {"histories": 4000, "ordered_pairs": 4000, "history_cache_hits": 2000, "immutability_checks": 300, "conversion_histories": 100, "distinct_nontrivial": 4000}},
+        exhaustive={"quick": False, "thorough": False},
+        assumptions=["outcome = type-strict value or (exception class, structural error signature)", "cache monitor wraps BuiltinMediator.cached_call from the harness; zero hits make the run inconclusive"],
+    ),
 }
